@@ -83,12 +83,15 @@ ABSTRACT = {Abs, Proto}
 ATOMS = [
     ("A", A), ("A1", A1), ("Abs", Abs), ("Impl", Impl), ("Proto", Proto), ("int", int), ("list", list), ("List", List), ("NT", NT), ("List[int]", List[int]),
     ("Optional[int]", Optional[int]), ("'a'", "a"), ("'ab'", "ab"), ("'a.*'", "a.*"), ("'a|b'", "a|b"), ("re(b?)", re.compile("b?")),
+    ("ANY", P.ANY),    # matches every location - but a chain element still needs a location to exist (seeded change: a leading P.ANY no longer did)
 ]
 ATOM_BY_NAME = dict(ATOMS)
 
 
 def atom_ref(name, loc):  # noqa: PLR0911
     pred = ATOM_BY_NAME[name]
+    if name == "ANY":
+        return True
     if isinstance(pred, (str, re.Pattern)):
         fid = getattr(loc, "field_id", None)
         if fid is None:
